@@ -374,7 +374,17 @@ def asm_rule(ctx: Ctx, rid: str = "R19.asm") -> None:
                     am = m.method("Parser", "_add_label_mapping")
                     for p_, v in zip(am.params[1:], c.args):
                         kw.setdefault(p_, v)
-                    binds.setdefault((pr.show(kw.get("label", ast.Constant(value=None))), pr.show(kw.get("value", ast.Constant(value=None)))), []).append(cond)
+                    from ..pathsym import conj
+
+                    def arms(x: ast.AST, under: list):
+                        # a label chosen by a conditional expression: one binding per arm, under the arm's condition
+                        if isinstance(x, ast.IfExp):
+                            yield from arms(x.body, under + [x.test])
+                            yield from arms(x.orelse, under + [ast.UnaryOp(op=ast.Not(), operand=x.test)])
+                        else:
+                            yield x, under
+                    for leaf, under in arms(kw.get("label", ast.Constant(value=None)), []):
+                        binds.setdefault((pr.show(leaf), pr.show(kw.get("value", ast.Constant(value=None)))), []).append(conj([cond] + under) if under else cond)
                     if any(a.index < se.index for a in adds):
                         late.append(se)
     DECL = "E.get_name() == 'label_declaration'"
